@@ -520,7 +520,7 @@ func C06(cfg Cfg) int {
 	}
 	defer verifhook.Set(nil)
 	sizes := []int{1, 2, 5, 17}
-	rounds := cfg.N(1, 10)
+	rounds := cfg.N(1, 40)
 	for round := 0; round < rounds; round++ {
 		for _, f := range c06Faults {
 			for _, kind := range []string{"generic", "multi", "att", "atts", "prop"} {
